@@ -1,0 +1,12 @@
+//go:build verif
+
+package tacquito
+
+import "net"
+
+// VerifNewClient returns a Client that speaks over a caller supplied net.Conn.
+// It exists only in builds tagged "verif" so that verification harnesses can
+// drive Client.Send over a scripted connection; it adds no behaviour.
+func VerifNewClient(conn net.Conn, secret []byte) *Client {
+	return &Client{crypter: newCrypter(secret, conn, false)}
+}
